@@ -15,7 +15,7 @@ func checkC01(c *Ctx, r *Report) {
 		"(version, flag bits, counts compared with constants, header length 8/16, presence predicates), then executes the box's EncodeSW on the decoded abstract structure and compares, bit by bit, " +
 		"what is written with what was read (bit-provenance domain: every written bit must be the same input bit the decoder kept there, or a constant where the decoder discards). " +
 		"W-DR: the discarded/constant runs must be on the committed don't-care list (wire_tables.go). " +
-		"L-NARROWSHIFT: no left shift by a constant is computed in an 8- or 16-bit type and only then widened (bit packing of the loudness boxes). T-TYPEDCHILD: a function that stores a non-nil value into a typed child pointer (the fields AddChild sets) also updates Children of the same box or calls AddChild. T-ADDCHILD: every AddChild method of a type with a Children field stores Children on every path that returns (Encode walks Children; a child only remembered in a typed field is lost). W-ORDER (also over the boxes and descriptors W-DE tables as irregular: esds descriptors, hdlr, mime, senc, sgpd): for every struct type whose fields one function fills from bits.SliceReader calls and another writes through bits.SliceWriter calls, no two fields are filled in one order on every path that fills both and written in the opposite order, and each field is read and written with the same set of widths (8/16/24/32/64 bits, n bits, bytes, zero-terminated string). L-LOCKSTEP: a counter field that the code increments together with an append to a sibling list (dref/stsd entry count and Children) is never incremented on a path that does not append. O-CLEAN: a trial parser (bool result; SencBox.parseAndFillSamples, run once per candidate IV size) resets every receiver field it grows with append on every path that may return false, so a failed attempt leaves nothing for the next one to append after. O-STICKY: a box decoder that reads from a bits.SliceReader does not return a decoded box with a literal nil error unless the reader's accumulated error was tested, the declared size is validated against what is read, children are decoded by the container helpers, or the payload is one block parsed by an error-returning callee (W-DE presumes the bytes were there: a truncated box accepted with zero-filled fields re-encodes to other bytes). Decides that decoder and encoder agree on which field sits in which wire slot, with which width, under which guard, in which order, and that every kept bit is written back; " +
+		"L-NARROWSHIFT: no left shift by a constant is computed in an 8- or 16-bit type and only then widened (bit packing of the loudness boxes). T-TYPEDCHILD: a function that stores a non-nil value into a typed child pointer (the fields AddChild sets) also updates Children of the same box or calls AddChild. T-ADDCHILD: every AddChild method of a type with a Children field stores Children on every path that returns (Encode walks Children; a child only remembered in a typed field is lost). W-ORDER (also over the boxes and descriptors W-DE tables as irregular: esds descriptors, hdlr, mime, senc, sgpd): for every struct type whose fields one function fills from bits.SliceReader calls and another writes through bits.SliceWriter calls, no two fields are filled in one order on every path that fills both and written in the opposite order, and each field is read and written with the same set of widths (8/16/24/32/64 bits, n bits, bytes, zero-terminated string). L-LOCKSTEP: a counter field that the code increments together with an append to a sibling list (dref/stsd entry count and Children) is never incremented on a path that does not append. O-CLEAN: a trial parser (bool result; SencBox.parseAndFillSamples, run once per candidate IV size) resets every receiver field it grows with append on every path that may return false, so a failed attempt leaves nothing for the next one to append after. O-SIZECHK: a box decoder that rejects when the declared size differs from a computed one does so on every path that returns a box (a check performed by one arm only lets the other accept trailing bytes it then drops on re-encoding). O-STICKY: a box decoder that reads from a bits.SliceReader does not return a decoded box with a literal nil error unless the reader's accumulated error was tested, the declared size is validated against what is read, children are decoded by the container helpers, or the payload is one block parsed by an error-returning callee (W-DE presumes the bytes were there: a truncated box accepted with zero-filled fields re-encodes to other bytes). Decides that decoder and encoder agree on which field sits in which wire slot, with which width, under which guard, in which order, and that every kept bit is written back; " +
 		"does not decide boxes in the irregular table, numeric loop bounds, children contents (each child is its own obligation), or fixed-point-ness of normalisations."
 	wireAssumptions(r)
 	ruleWDE(c, r)
@@ -47,6 +47,9 @@ func checkC01(c *Ctx, r *Report) {
 	requireFixture(r, "L-LOCKSTEP", "stepper.alone", func(fc *Ctx, s *Report) { ruleLockstep(fc, s, nil) })
 	if n := ruleTrialCleanup(c, r); n < 1 {
 		r.Undecided("O-CLEAN", "scope", "", "no trial parser (bool result, receiver fields grown with append) found; SencBox.parseAndFillSamples expected")
+	}
+	if n := ruleSizeCheckEveryPath(c, r); n < 12 {
+		r.Undecided("O-SIZECHK", "scope", "", fmt.Sprintf("only %d decoders that validate the declared size by equality found", n))
 	}
 	if n := ruleStickyError(c, r); n < 70 {
 		r.Undecided("O-STICKY", "scope", "", "box decoders that read from a bits.SliceReader not found")
